@@ -88,6 +88,9 @@ def extra_cases(rng, tier):
     add("radius_not_monotone", poke=[["radius", 7, 1.0]])
     add("zero_gravity", poke=[["gravity", 0, 0.0]])
     add("all_three_solutions", solve_for=["tidal", "loading", "free"])
+    # valid values in unusual containers: the call must raise cleanly or work, never crash, and never leave the arrays changed
+    for form in ("noncontiguous", "float32_radius", "fortran_2d_slice", "readonly"):
+        add("array_form_" + form, array_form=form)
     add("result_lifetime", check_lifetime=True)
     # liquid surface layers (static and dynamic), liquid sandwiches, five-layer stacks
     for static in (True, False):
